@@ -59,6 +59,17 @@ def ac_flatten(s, tags=("Sum", "Product")):
     return (t, *[ac_flatten(c, tags) for c in s[1:]])
 
 
+def _nested_same_op(s):
+    """Is there a Sum directly inside a Sum in *s*?  (Products come back from the parser as a
+    nest of binary ones: a * b * c is read as (a * b) * c, a recorded parser deviation.)"""
+    if not isinstance(s, tuple) or not s or not isinstance(s[0], str):
+        return False
+    if s[0] == "Sum" and len(s) == 2 and s[1][0] == "tuple":
+        if any(isinstance(c, tuple) and c and c[0] == s[0] for c in s[1][1:]):
+            return True
+    return any(_nested_same_op(c) for c in s[1:] if isinstance(c, tuple))
+
+
 def denumpy(s):
     """A numpy scalar constant prints like the Python number it equals and is read back as that."""
     if not isinstance(s, tuple) or not s or not isinstance(s[0], str):
@@ -162,7 +173,9 @@ def roundtrip(spec):
         h = f"long-lived printer / fresh parser raised {e!r}"
     if h:
         return "instance-history", h, text
-    if ac_flatten(bs) != ac_flatten(denumpy(spec)):
+    # the printer writes a sum inside a sum without brackets, so the ORIGINAL is compared in
+    # flattened form; the parse result must be ONE n-ary sum, not a nest of binary ones
+    if ac_flatten(bs) != ac_flatten(denumpy(spec)) or _nested_same_op(bs):
         vd = None
         try:
             vd = values_differ(spec, bs)
@@ -195,7 +208,8 @@ class C06(Check):
             "parent with BOTH operands composite over 6 (quick) / 15 (thorough) shapes; hash-colliding and "
             "typed twin constants in sibling subtrees; 21 names that begin with a keyword or literal "
             "spelling / differ in case / carry digits and 7 numpy scalar constants in 16 contexts, "
-            "also as attribute, function and keyword names. Each tree is printed, "
+            "also as attribute, function and keyword names; sums, calls, subscripts and tuples with "
+            "65 / 300 (thorough .. 700) operands. Each tree is printed, "
             "parsed, compared after Sum/Product flattening with strict constant types, "
             "re-printed. Non-trivial = the printed text contains an operator or bracket, "
             "distinct = distinct printed texts.")
@@ -226,6 +240,7 @@ class C06(Check):
         fams.append(("typed-twins", lambda: (("t", s) for s in gen.twin_trees(
             gen.TYPED_TWINS, V("x"), V("y")))))
         fams.append(("names-and-numpy", self.gen_names))
+        fams.append(("wide", lambda: self.gen_wide(tier)))
         if tier == "quick":
             fams.append(("nest3", lambda: (("t", s) for _, s in
                                            gen.nest3(REDUCED14, REDUCED14, REDUCED14))))
@@ -240,6 +255,19 @@ class C06(Check):
              "True_", "False1", "e1", "E3", "j", "x_1", "_x", "aB", "Ab", "x1e3", "d_not")
     NP = (("np", "float64", 1.5), ("np", "int64", 2), ("np", "float32", 0.5), ("np", "int8", -3),
           ("np", "float64", -2.5), ("np", "bool", True), ("np", "float64", 1e20))
+
+    def gen_wide(self, tier):
+        """n-ary nodes and argument lists with many operands (printing and parsing are loops or
+        recursions over them)."""
+        for n in ((65, 300) if tier == "quick" else (65, 129, 300, 700)):
+            ops = [V(f"v{i % 11}") if i % 4 else C(i) for i in range(n)]
+            ops2 = [("Product", T(C(2), o)) if i % 5 == 0 else o for i, o in enumerate(ops)]
+            yield ("t", ("Sum", T(*ops)))
+            yield ("t", ("Sum", T(*ops2)))
+            yield ("t", ("Call", V("f"), T(*ops)))
+            yield ("t", ("Subscript", V("arr"), T(*ops)))
+            yield ("t", ("Power", ("Sum", T(*ops)), C(2)))
+            yield ("t", ("tuple", *ops))
 
     def gen_names(self):
         x = V("x")
